@@ -346,6 +346,36 @@ def translate(repo):
                     if "clf.device." in probe or (".device." in probe and "self.device" not in probe):
                         leaks.append("%s:%d" % (os.path.relpath(p, repo), i))
     facts["no_module_outside_clf_uses_frontend_device"] = not leaks
+    # no module of nfc/clf defers work to another thread of control: no thread, timer, executor, event loop,
+    # signal handler or exit hook is created anywhere in the frontend, the drivers or the transports
+    # (a deferred driver action would touch the reader while no frontend operation holds the lock)
+    spawns = []
+    bad_modules = {"_thread", "thread", "concurrent", "multiprocessing", "asyncio", "sched", "atexit", "signal",
+                   "subprocess", "socketserver"}
+    bad_threading = {"Thread", "Timer", "_start_new_thread", "start_new_thread", "setprofile", "settrace"}
+    clfdir = os.path.join(base, "clf")
+    for fn in sorted(os.listdir(clfdir)):
+        if not fn.endswith(".py"):
+            continue
+        p = os.path.join(clfdir, fn)
+        mtree = ast.parse(open(p).read())
+        for n in ast.walk(mtree):
+            if isinstance(n, ast.Import):
+                for a in n.names:
+                    if a.name.split(".")[0] in bad_modules:
+                        spawns.append("%s:%d import %s" % (fn, n.lineno, a.name))
+            elif isinstance(n, ast.ImportFrom):
+                mod = (n.module or "").split(".")[0]
+                if mod in bad_modules:
+                    spawns.append("%s:%d from %s import" % (fn, n.lineno, n.module))
+                if mod == "threading" and any(a.name in bad_threading or a.name == "*" for a in n.names):
+                    spawns.append("%s:%d from threading import %s" % (fn, n.lineno, ",".join(a.name for a in n.names)))
+            elif isinstance(n, ast.Attribute) and n.attr in bad_threading:
+                spawns.append("%s:%d %s" % (fn, n.lineno, ast.unparse(n)))
+            elif isinstance(n, ast.Name) and n.id in ("Thread", "Timer"):
+                spawns.append("%s:%d %s" % (fn, n.lineno, n.id))
+    facts["no_clf_module_starts_threads_timers_or_hooks"] = not spawns
+    leaks = leaks + spawns if spawns else leaks
     return defs, t, facts, leaks
 
 
